@@ -1108,16 +1108,65 @@ def c16e(chk):
             tb = an.try_branch_of(f, rd[0][0])
             ok = tb is not None and an.dominated_by_edge(f, tb[1], tb[2], nw[0][0]) and an.dominated_by_edge(f, tb[1], tb[2], rn[0][0])
         chk.ob("C16.e", "Stat::run/rows-after-read-succeeded", ok, f.loc(), "the statistics runner is created and run only on the success edge of read()?")
-    # stat runner: all statistics are computed (collect::<Result<Vec>>?) before the row is written
+    # stat runner: every statistic is computed, and any failure leaves the function, before the row is written
     ws = chk.fn("sfs::stat::runner::Runner::<W>::write_statistics")
     if ws is not None:
-        coll = [(b, t) for b, t in ws.calls() if callee_is(t["callee"], N.COLLECT)]
+        import iters as IT
+        prog = chk.prog
+        its = IT.iterations(prog, ws)
+        unit = [ws] + prog.closures_of(ws.path)
+        calc = [(g, b, t) for g in unit for b, t in an.calls(g, "sfs::stat::Statistic::calculate")]
         wd = an.calls(ws, "sfs::stat::runner::Runner::<W>::write_with_delimiter")
+        other_writes = [(g.path, callee_name(t["callee"])) for g in unit for b, t in g.calls() if callee_name(t["callee"]).startswith(("std::io::Write::", "std::io::stdio::"))]
         ok = False
-        if len(coll) == 1 and len(wd) == 1:
-            tb = an.try_branch_of(ws, coll[0][0])
-            ok = tb is not None and an.dominated_by_edge(ws, tb[1], tb[2], wd[0][0]) and "core::result::Result<alloc::vec::Vec<alloc::string::String>" in " ".join(coll[0][1]["callee"].get("args", []))
-        chk.ob("C16.e", "stat::Runner::write_statistics/compute-all-then-write", ok, ws.loc(), "a failing statistic prevents the whole row")
+        why = "expected one calculate call, one write_with_delimiter call and no other write"
+
+        def outcomes_through_wrappers(g, cb):
+            """success/failure outcome of a fallible call, also when the result first passes through map_err / context wrappers"""
+            for _ in range(3):
+                oc = an.option_outcomes(g, cb)
+                if oc is not None:
+                    return oc
+                d = an.call_dest_local(g.term(cb))
+                nxt = [b2 for b2, t2 in g.calls() if t2["args"] and op_local(t2["args"][0]) is not None and g.copy_root(op_local(t2["args"][0])) == d
+                       and callee_name(t2["callee"]).split("::")[-1] in ("map_err", "context", "with_context", "map", "into")]
+                if len(nxt) != 1:
+                    return None
+                cb = nxt[0]
+            return None
+        if len(calc) == 1 and len(wd) == 1 and not other_writes:
+            g, cb, ct = calc[0]
+            wb = wd[0][0]
+            chk.fns_analysed.add(g.path)
+            inside = [it for it in its if it.body is g and cb in it.blocks]
+            it = min(inside, key=lambda x: len(x.blocks)) if inside else None
+            oc = outcomes_through_wrappers(g, cb)
+            if it is None or oc is None:
+                why = "calculate is not inside a recognised per-statistic iteration, or its outcome is not told apart"
+            elif it.kind == "loop":
+                sb, good, bad = oc
+                # a failing statistic leaves without reaching the write; the write follows the exhausted loop
+                after_bad = ws.reachable_from(bad)
+                ok = wb not in after_bad and wb not in it.loop_blocks and an.dominated_by_edge(ws, it.switch_bb, it.none_t, wb) and \
+                    sorted(IT.chain_names(it.chain())) == ["iter"]
+                why = "%s: failure leaves without writing=%s, write only after the last statistic=%s" % (it.describe(), wb not in after_bad, an.dominated_by_edge(ws, it.switch_bb, it.none_t, wb))
+            else:
+                # closure returning Result, collected into Result<Vec<_>, _> whose success edge dominates the write
+                sb, good, bad = oc
+                after_bad = g.reachable_from(bad)
+                ok_aggs = [b_ for b_, i_, p_, rv, s_ in g.assigns() if p_[0] == 0 and rv["k"] == "aggregate" and rv.get("variant") == "Ok"]
+                err_kept = bool(ok_aggs) and not any(b_ in after_bad for b_ in ok_aggs)
+                coll = [(b_, t_) for b_, t_ in ws.calls() if callee_is(t_["callee"], N.COLLECT)]
+                col_ok = False
+                if len(coll) == 1 and it.consumer == "map":
+                    ch = IT.receiver_chain(ws, coll[0][1]["args"][0])
+                    through = IT.chain_get(ch, "map") is it.term and IT.chain_names(ch) == ["map", "iter"]
+                    oc2 = an.option_outcomes(ws, coll[0][0])
+                    col_ok = through and oc2 is not None and an.dominated_by_edge(ws, oc2[0], oc2[1], wb) and \
+                        "core::result::Result<alloc::vec::Vec<" in " ".join(coll[0][1]["callee"].get("args", []))
+                ok = err_kept and col_ok
+                why = "%s: a failing statistic yields Err=%s, collected as Result<Vec<_>, _> whose success edge dominates the write=%s" % (it.describe(), err_kept, col_ok)
+        chk.ob("C16.e", "stat::Runner::write_statistics/compute-all-then-write", ok, ws.loc(), "a failing statistic prevents the whole row (%s)" % why)
     RC.who_may_write(chk, "C16.e")
     RC.exit_status(chk, "C16.e")
 
